@@ -76,7 +76,14 @@ func ZZ_C20_step() {
 	// instants within +-146 years of 1970 so that the ghost subtraction cannot overflow
 	zzAssume(-(1<<62) < prevNs && prevNs < 1<<62 && -(1<<62) < zzNowNs && zzNowNs < 1<<62)
 	zzReach("pre-state")
-	if zzBool("usePrintf", 0) {
+	how := zzInt("how", 0)
+	zzAssume(0 <= how && how <= 2)
+	if how == 2 {
+		// Printf without arguments: the format is still a format
+		zzAssume(s == "")
+		s = "disk 100% full"
+		lim.Printf("disk 100%% full")
+	} else if how == 1 {
 		lim.Printf("%s", s)
 	} else {
 		lim.Print(s)
